@@ -659,7 +659,7 @@ int tokens_get(AsmContext *asm_context, char *token, int len)
   if (IS_TOKEN(token, '$') && token_type != TOKEN_QUOTED)
   {
     snprintf(token, len, "%d",
-      asm_context->address / asm_context->bytes_per_address);
+      (uint32_t)asm_context->address / asm_context->bytes_per_address);
     token_type = TOKEN_NUMBER;
   }
 
